@@ -87,6 +87,11 @@ func vfInstallHooks() {
 		return true
 	}
 	verifHooks.pick = func(idx, n int) int { return vfCh.choose("pick", n, 0) }
+	verifHooks.pickPeer = func(ids []peer.ID) int {
+		// map iteration order would decide; canonical order, the explorer picks
+		sort.Slice(ids, func(i, j int) bool { return vfName(ids[i]) < vfName(ids[j]) })
+		return vfCh.choose("event", len(ids), 0)
+	}
 	verifHooks.coin = func(th float64) (bool, bool) {
 		def := 0
 		if !vfCh.coinDef {
